@@ -554,6 +554,12 @@ def member(node, k):
     return None
 
 
+def has_empty_node(v):
+    if isinstance(v, list) and v and v[0] == "node":
+        return not v[1] or any(has_empty_node(c) for _, c in v[1])
+    return False
+
+
 def expected_vec(ref, tail):
     """Element-wise scalar lookups; None when some key has no member (an error is expected)."""
     members = ref["members"]
@@ -678,9 +684,14 @@ def oracle(c, obs):
                         f"give {exp}")
         else:
             exp = expected_asof(ref, tail)
-            if exp is not None and not is_err(got) and got != exp:
-                return f"asof: {where} with dates {tail['dates']} gives {got}; the members in force are {exp}"
-            if exp is not None and is_err(got) and got.kind == "EIndex":
+            if exp is None or not tail["dates"]:
+                continue        # precondition not met, or an empty lookup: nothing is promised
+            if not is_err(got):
+                if got != exp:
+                    return f"asof: {where} with dates {tail['dates']} gives {got}; the members in force are {exp}"
+            elif got.kind == "EIndex" and not any(has_empty_node(m) for m in ref["members"].values()):
+                # (a group with a member-less node is refused by the homogeneity check with an IndexError:
+                # a refusal of a degenerate group, not a wrong value)
                 return f"asof: {where} with dates {tail['dates']} raises {got.kind}; the members in force are {exp}"
     return None
 
